@@ -346,5 +346,6 @@ class LevyCopulaModel(Model):
             if fun_root(b) > 0:
                 return b
 
-        solution = optimize.toms748(f=fun_root, a=a, b=b, xtol=1e-14)
+        # the root can be as small as the end of the bracket (logarithmic tails): the tolerance is relative to it
+        solution = optimize.toms748(f=fun_root, a=a, b=b, xtol=1e-300, rtol=1e-14)
         return solution
